@@ -207,6 +207,71 @@ def job_whole(n, rounds, timeout_s=300):
     return inconclusive(f"model does not replay {w}", **common)
 
 
+def job_short(n, rounds, L, timeout_s=300):
+    """whole run on an arbitrary short code sequence (a prefix of a permutation): catches state carried
+    between games that the one-game step cannot see"""
+    mg, ge = _mg()
+    days = (n - 1) * rounds
+
+    def h(eng):
+        x = fresh_array("x", (L,))
+        y = fresh_array("y", (days, n))
+        mg(x, y)
+        return util.Box(x=x, y=y, coll=None)
+    eng, b = util.single_path(h)
+    cons = [z3.And(lift(b.x[k]) >= 0, lift(b.x[k]) < n * (n - 1)) for k in range(L)]
+    H, A = [], []
+    for g in range(L):
+        hh = lift(b.x[g]) / (n - 1)
+        a0 = lift(b.x[g]) % (n - 1)
+        H.append(hh)
+        A.append(z3.If(a0 >= hh, a0 + 1, a0))
+    day = [z3.Int(f"day{g}") for g in range(L)]
+    spec = []
+    for g in range(L):
+        def busy(team, d, g=g):
+            return z3.Or(*[z3.And(day[e] == d, z3.Or(H[e] == team, A[e] == team)) for e in range(g)]) if g else z3.BoolVal(False)
+        free = [z3.And(z3.Not(busy(H[g], d)), z3.Not(busy(A[g], d))) for d in range(days)]
+        spec.append(z3.And(day[g] >= 0, day[g] <= days))
+        for d in range(days):
+            spec.append((day[g] == d) == z3.And(free[d], *[z3.Not(free[e]) for e in range(d)]))
+    ok = []
+    for d in range(days):
+        for t in range(n):
+            val = z3.IntVal(0)
+            for g in range(L):
+                val = z3.If(z3.And(day[g] == d, H[g] == t), A[g] + 1, z3.If(z3.And(day[g] == d, A[g] == t), -(H[g] + 1), val))
+            ok.append(lift(b.y[d, t]) == val)
+    inr = util.obligations_formula(eng.collected, "index in range")
+    r = backend.solve(cons + spec, z3.Not(z3.And(inr, *ok)), timeout_s=timeout_s, label=f"short n={n} r={rounds} L={L}")
+    q, st = util.qstats([r])
+    common = dict(paths=1, queries=q, solver_s=st, backend=repr(r),
+                  summary=f"short sequence n={n} rounds={rounds} L={L}: {r.status} ({r.backend} {r.seconds:.1f}s)",
+                  sample=dict(query=f"exists sequence of {L} game codes whose decoded plan differs from the earliest-slot plan", n=n, rounds=rounds, answer=r.status))
+    if r.status == "unsat":
+        return held(**common)
+    if r.status == "unknown":
+        return inconclusive("solver unknown " + r.detail, **common)
+    xs = [int(r.model.get(f"x_{k}", 0)) for k in range(L)]
+    # extend to a full permutation of the blueprint when the prefix is a sub-multiset of it
+    bp = [int(v) for v in ge.search_space_for_n_and_rounds(n, rounds).blueprint]
+    rest = list(bp)
+    full = True
+    for g in xs:
+        if g in rest:
+            rest.remove(g)
+        else:
+            full = False
+    cands = ([xs + rest] if full else []) + [xs]
+    for cx in cands:
+        w = dict(x=cx, n=n, rounds=rounds, clause="earliest_slot", is_permutation_of_blueprint=(cx is not xs))
+        bad, info = replay(w)
+        if bad:
+            w["observed"] = info
+            return violated("earliest_slot", "ttp/game_encoding.py:map_games", f"decoding differs from the earliest-slot rule: {w}", w, validated=1, **common)
+    return inconclusive(f"model does not replay {xs}", **common)
+
+
 def check_search_space(n, rounds):
     import moptipyapps.ttp.game_encoding as ge
     bp = [int(v) for v in ge.search_space_for_n_and_rounds(n, rounds).blueprint]
@@ -296,6 +361,8 @@ def jobs(tier):
     for n, r in sizes:
         js.append(Job(f"step/n{n}/r{r}", job_step, dict(n=n, rounds=r), "earliest_slot", 900))
         js.append(Job(f"prefix/n{n}/r{r}", job_prefix, dict(n=n, rounds=r), "earliest_slot", 300))
+    for n, r, L in [(4, 2, 3), (4, 3, 3), (5, 2, 3), (4, 3, 4)] + ([(6, 2, 3), (6, 3, 4), (5, 3, 4), (4, 4, 5)] if tier == "thorough" else []):
+        js.append(Job(f"short/n{n}/r{r}/L{L}", job_short, dict(n=n, rounds=r, L=L, timeout_s=600), "earliest_slot", 800))
     for n, r in [(2, 2), (3, 1), (3, 2)] + ([(4, 1), (2, 3), (2, 4)] if tier == "thorough" else []):
         js.append(Job(f"whole/n{n}/r{r}", job_whole, dict(n=n, rounds=r, timeout_s=600), "earliest_slot", 800))
     return js
@@ -305,6 +372,7 @@ def meta(tier):
     return dict(
         bounds=dict(step="one game from an arbitrary mutually consistent plan (entries -n..n, no self-play), any game code 0..n(n-1)-1; "
                          "n<=8, rounds<=2 (thorough: n<=12, rounds<=4)",
+                    short="arbitrary code sequences of length 3-4 (thorough 5), n<=5 (thorough 6), whole run vs declarative plan (state carried between games)",
                     whole="any code sequence of blueprint length vs declarative plan for (2,2),(3,1),(3,2) (thorough adds (4,1),(2,3),(2,4))",
                     search_space="enumerated configurations 2<=n<=8, rounds<=5 (thorough 12, 7) - configuration enumeration, not a solver verdict"),
         outside=["n > 12", "whole-run equivalence beyond the listed sizes (covered by the step + induction)"],
